@@ -84,10 +84,19 @@ def moveCollides (w : World) (old new : Name) : Bool :=
 
 /-- triggers that are properties of a state (evaluated on the state a call leaves behind):
     some directory's listing deviates from its true children -/
-def evalPost (s : Sys) : List String :=
+def anyListingDeviates (w : World) : Bool :=
+  w.idx.rows.any (fun r => r.live && r.hdr.typeflag == tfDir && r.linkname == [] && listingDeviates w r.name)
+
+def evalPost (f : FsCfg) (s : Sys) : List String :=
   let w := s.w
-  if w.idx.rows.any (fun r => r.live && r.hdr.typeflag == tfDir && r.linkname == [] && listingDeviates w r.name)
-  then ["listingDeviates"] else []
+  -- the same question on the index a from-scratch rebuild of the tape produces (names are
+  -- stored relative to the root there, so a prefix recurs more easily: `ab/ab/a`)
+  let rebuilt := (rebuildOp f { w with idx := {} }).1
+  (if w.tape.any (fun it => match it with
+      | .recd h _ _ _ => (h.pax.get Gen.recSTFSRecordReplacesName).isSome
+      | .trailer => false) then ["tapeHasMoveRecord"] else []) ++
+  (if anyListingDeviates w then ["listingDeviates"] else []) ++
+  (if anyListingDeviates rebuilt then ["listingDeviatesAfterRebuild"] else [])
 
 /-- triggers of a call in a state -/
 def eval (f : FsCfg) (s : Sys) (c : Call) : List String :=
